@@ -93,6 +93,11 @@ def run_case(ctx, case):
             w = drv.call("rf.eq", *curve_args(*M), *curve_args(*Y))
             if w != ("ok", "yes"):
                 rec.violation("cleaned rational curve differs from the original", case)
+            # every knot and every degree the history added is exactly removable: the cleaned description is not larger than
+            # the one the history started from
+            if len(Y[0]) > len(M[0]) or kv_info(list(Y[0]))[0] > kv_info(list(M[0]))[0]:
+                rec.violation("clean left exactly removable knots / degrees of a rational curve in place", case,
+                              cleaned=ser(Y[0]), start=ser(M[0]))
     # idempotence: the same call again changes nothing
     r1 = impl(lambda: cx.clean())
     first = curve_state(cx)
@@ -177,6 +182,25 @@ def run(ctx):
             P = P[: (n + 1) // 2] + P[: n // 2][::-1]            # symmetric control polygon
         tol = None if i % 3 == 1 else (F(1, 10 ** rng.choice([3, 4, 6])) if i % 3 == 2 else "adaptive")
         run_special(ctx, ser(dict(kind="special", U=U, P=P, W=None, tol=tol, which=rng.choice(["clean", "knot_clean", "degree_clean"]))))
+    for i in range(budget(ctx, 8, 80)):
+        # rational curves whose smallest description has weights of both signs (weight function without zero, e.g. 1, -1/10, 1)
+        # while every refined / elevated description has positive weights only
+        cneg = rng.choice([F(1, 10), F(1, 5), F(1, 4), F(1, 3)])
+        iv = rand_interval(rng)
+        U = [iv[0]] * 3 + [iv[1]] * 3
+        P = rand_points(rng, 3, rng.choice([1, 2]))
+        W = [F(1), -cneg, F(1)]
+        cx = impl(lambda: make_curve(U, P, W))
+        if cx[0] != "ok":
+            continue
+        cx = cx[1]
+        hist = inflate(rng, cx, rng.randint(1, 2))
+        if not hist:
+            continue
+        X = curve_state(cx)
+        ctx["rec"].count("family", "mixed-sign-minimal-weights")
+        run_case(ctx, ser(dict(kind="clean", U=U, P=P, W=W, X=dict(U=X[0], P=X[1], W=X[2]), hist=hist,
+                               order=rng.choice(["clean", "degree-knot", "knot-degree"]), twin=False)))
     ndy = budget(ctx, 8, 80)
     for i in range(ndy + budget(ctx, 45, 600)):
         rat = rng.random() < 0.25
